@@ -44,7 +44,7 @@ func verifyFromEthTx(native *native.NativeService, proof, extra []byte, fromChai
 		return nil, fmt.Errorf("VerifyFromEthProof, get current header fail, error:%s", err)
 	}
 	bestHeight := uint32(bestHeader.Number.Uint64())
-	if bestHeight < height || bestHeight-height < uint32(sideChain.BlocksToWait-1) {
+	if bestHeight < height || uint64(bestHeight-height) < sideChain.BlocksToWait-1 {
 		return nil, fmt.Errorf("VerifyFromEthProof, transaction is not confirmed, current height: %d, input height: %d", bestHeight, height)
 	}
 	//fetch the verified block header data from db
